@@ -270,12 +270,34 @@ inline void death_note() {
 inline const char*& context() { static const char* c = ""; return c; }
 inline const char*& property_id() { static const char* c = "C??"; return c; }
 
+//! optional harness callback printing the operation trace of the running case when it dies
+inline void (*&death_extra())() { static void (*f)() = nullptr; return f; }
+inline void run_death_extra() {
+    static bool done = false;
+    if (done || !death_extra()) return;
+    done = true;
+    ssize_t r = write(2, "\nVERIF-TRACE ", 13);
+    (void)r;
+    death_extra()();
+    r = write(2, "\n", 1);
+}
+//! convenience: harnesses point this at the trace of the running history
+inline const std::vector<std::string>*& live_trace() { static const std::vector<std::string>* t = nullptr; return t; }
+inline void print_live_trace() {
+    const std::vector<std::string>* t = live_trace();
+    if (!t) return;
+    size_t from = t->size() > 60 ? t->size() - 60 : 0;
+    for (size_t i = from; i < t->size(); ++i) fprintf(stderr, "%s; ", (*t)[i].c_str());
+    fflush(stderr);
+}
+
 inline void terminate_handler() {
     char buf[256];
     int n = snprintf(buf, sizeof(buf), "\nVERIF-KEY %s:terminate:%s\n", property_id(), context());
     ssize_t r = write(2, buf, n);
     (void)r;
     death_note();
+    run_death_extra();
     if (st().mtx.try_lock()) {
         st().mtx.unlock();
         dump_out(true);
@@ -285,6 +307,7 @@ inline void terminate_handler() {
 
 inline void death_callback() {
     death_note();
+    run_death_extra();
     // best effort: keep the counters of the cases that ran before
     if (st().mtx.try_lock()) {
         st().mtx.unlock();
@@ -298,6 +321,7 @@ inline void signal_handler(int sig) {
     int n = snprintf(buf, sizeof(buf), "VERIF-SIGNAL %d\n", sig);
     ssize_t r = write(2, buf, n);
     (void)r;
+    run_death_extra();
     if (st().mtx.try_lock()) {
         st().mtx.unlock();
         dump_out(true);
